@@ -51,6 +51,24 @@ def _deco_name(d):
     return "?"
 
 
+def _nested_defs(body):
+    """function definitions nested in the compound statements (if / for / while / with / try) of a body, in source order; the
+    bodies of other function or class definitions are not entered"""
+    out = []
+    for stmt in body:
+        if isinstance(stmt, (ast.FunctionDef, ast.ClassDef)):
+            continue
+        for field in ("body", "orelse", "finalbody"):
+            sub = getattr(stmt, field, None)
+            if isinstance(sub, list):
+                out.extend(n for n in sub if isinstance(n, ast.FunctionDef))
+                out.extend(_nested_defs(sub))
+        for h in getattr(stmt, "handlers", []) or []:
+            out.extend(n for n in h.body if isinstance(n, ast.FunctionDef))
+            out.extend(_nested_defs(h.body))
+    return out
+
+
 class ModuleInfo:
     def __init__(self, relpath):
         self.relpath = relpath
@@ -106,6 +124,9 @@ class ModuleInfo:
                 c2 = [n for n in cands if not any(_deco_name(d).endswith(".setter")
                                                    for d in getattr(n, "decorator_list", []))]
                 cands = c2 or cands
+            if not cands and not role and i > 0:
+                # a function defined inside a compound statement of the enclosing function (`if ...: def f(): ...`)
+                cands = [n for n in _nested_defs(scope_body) if n.name == part]
             if not cands:
                 raise KeyError(f"{self.relpath}: cannot find {qual!r} (at {part!r})")
             node = cands[0]
